@@ -1,7 +1,9 @@
 """Case generator for family `history` (engine_core zobrist_history.rs, property C10).
 
 Case line:  <index:hashhex pairs separated by spaces> TAB <start index> TAB <half-move clock (u32)>
-Observation: count in decimal | PANIC | BADCASE          (see coq/Driver/RunHistory.v, harness/src/fam_history.rs)
+Observation: count in decimal | BADCASE                  (see coq/Driver/RunHistory.v, harness/src/fam_history.rs)
+Since /repo fix aca2b0d every u16 index is legal (the history grows, unwritten entries read as 0); before it any
+index >= 5000 panicked (D16).  The old array length 5000 stays a boundary of interest (initial Vec length).
 
 `gen(rng, tier)` -> list of case lines; `nontrivial(line)` -> bool; `ref(line)` is an independent
 window-style reference used by the self test (`python3 gen_history.py`).
@@ -23,7 +25,7 @@ HALF_SPECIAL = [0, 1, 2, 3, 4, 5, 6, 7, 8, 9, 50, 99, 100, 101, 4998, 4999, 5000
                 (1 << 31) - 1, 1 << 31, (1 << 32) - 8, (1 << 32) - 1]
 
 START_EDGE = [0, 1, 2, 3, 4, 5, 6, 7, 8, 9, 10, 11, 12, 4990, 4995, 4996, 4997, 4998, 4999]
-START_PANIC = [5000, 5001, 5002, 9999, 32767, 32768, 65534, 65535]
+START_HIGH = [5000, 5001, 5002, 5003, 5004, 9999, 20000, 20001, 32767, 32768, 65532, 65533, 65534, 65535]   # >= old array length
 
 
 def line(sets, start, half):
@@ -34,13 +36,15 @@ def pick_start(rng):
     r = rng.random()
     if r < 0.10:
         return rng.choice(START_EDGE)
-    if r < 0.14:
-        return rng.choice(START_PANIC)
+    if r < 0.16:
+        return rng.choice(START_HIGH)
     if r < 0.60:
         return rng.randint(4, 40)
     if r < 0.85:
         return rng.randint(4, 400)
-    return rng.randint(4, LEN - 1)
+    if r < 0.95:
+        return rng.randint(4, LEN - 1)
+    return rng.randint(LEN, 65535)
 
 
 def pick_half(rng, start):
@@ -67,12 +71,12 @@ def random_case(rng):
     start = pick_start(rng)
     half = pick_half(rng, start)
     span = rng.choice([6, 10, 16, 24, 40, 64])
-    top = min(start, LEN - 1)
+    top = start
     lo = max(0, top - span)
     density = rng.choice([1.0, 1.0, 0.9, 0.6])
     idx = [i for i in range(lo, top + 1) if rng.random() < density]
     if rng.random() < 0.3:                      # stale entries above the start index (earlier search lines)
-        idx += [i for i in range(top + 1, min(LEN, top + 6))]
+        idx += [i for i in range(top + 1, min(65536, top + 6))]
     if rng.random() < 0.2:                      # overwrites: the later write wins
         idx += [rng.choice(idx) for _ in range(rng.randint(1, 4))] if idx else []
     order = rng.random()
@@ -81,14 +85,15 @@ def random_case(rng):
     elif order < 0.3:
         idx.reverse()
     sets = [(i, rng.choice(pal)) for i in idx]
-    if rng.random() < 0.02:                     # `set` itself out of bounds
-        sets.insert(rng.randint(0, len(sets)), (rng.choice([5000, 5001, 65535]), rng.choice(pal)))
+    if rng.random() < 0.05:                     # a write far away (grows the vector), possibly before the others
+        sets.insert(rng.randint(0, len(sets)), (rng.choice([4999, 5000, 5001, 20000, 65535]), rng.choice(pal)))
     return line(sets, start, half)
 
 
 def planted_case(rng):
     """Background of pairwise distinct hashes, the start hash planted at chosen distances."""
-    start = rng.choice([rng.randint(4, 40), rng.randint(4, 40), rng.randint(41, 300), rng.randint(4900, 4999)])
+    start = rng.choice([rng.randint(4, 40), rng.randint(4, 40), rng.randint(41, 300), rng.randint(4900, 4999),
+                        rng.randint(4996, 5012), rng.choice([5000, 5001, 20000, 65534, 65535])])
     span = min(start, rng.choice([8, 12, 20, 30, 44]))
     key = rng.choice([1, 0, U64, 0xabcdef])
     kind = rng.randrange(9)
@@ -146,40 +151,53 @@ def boundary_cases():
         for half in [0, 1, 2, 3, 4, 5, 6, 7, 8, 9, 12, 13, 65535, 65536, 65540, 65544]:
             out.append(line(base, start, half))
     # empty history: every slot is 0, so everything repeats
-    for start in [0, 3, 4, 5, 7, 8, 9, 100, 4998, 4999, 5000, 5001, 65535]:
+    for start in [0, 3, 4, 5, 7, 8, 9, 100, 4998, 4999, 5000, 5001, 5004, 20000, 65534, 65535]:
         for half in [0, 3, 4, 7, 8, 65535, 65536, 65540, 65544, (1 << 32) - 1]:
             out.append(line([], start, half))
-    # top of the array
-    for start in [4996, 4997, 4998, 4999]:
+    # around the initial length of the vector (the old array length) and at the top of the u16 range
+    for start in [4996, 4997, 4998, 4999, 5000, 5001, 5002, 5003, 5004, 5008, 20000, 65534, 65535]:
         for half in [0, 4, 7, 8, 9, 4999, 5000, 65535]:
             out.append(line([(start, 7), (start - 4, 7), (start - 8, 7), (start - 6, 9)], start, half))
             out.append(line([(start, 7), (start - 3, 7), (start - 2, 7), (start - 8, 7)], start, half))
             out.append(line([(start, 7), (0, 7), (1, 7), (2, 7), (3, 7)], start, half))
-    # panics
+    # former panics (D16): writes and reads at / beyond index 5000, in every order
     out.append(line([(5000, 1)], 10, 10))
     out.append(line([(4999, 1), (5000, 1)], 4999, 10))
     out.append(line([(65535, 0)], 0, 0))
     out.append(line([(1, 1)], 5000, 0))
     out.append(line([(1, 1)], 5001, 65536))
     out.append(line([(1, 1)], 65535, 65535))
+    out.append(line([(5000, 1), (4996, 1), (4992, 1)], 5000, 8))        # window straddles the old length
+    out.append(line([(5004, 1), (5000, 1), (4996, 1)], 5004, 8))
+    out.append(line([(5004, 1), (5000, 1), (4996, 1)], 5004, 7))
+    out.append(line([(5008, 1), (5004, 1), (5000, 1)], 5008, 8))        # entirely beyond it
+    out.append(line([(5008, 1), (5004, 1)], 5008, 8))                   # 5000 unwritten: reads 0, not equal
+    out.append(line([(5008, 0)], 5008, 8))                              # ... equal to key 0
+    out.append(line([(20000, 0)], 20000, 65535))
+    out.append(line([(65535, 5), (65531, 5), (65527, 5)], 65535, 8))
+    out.append(line([(65535, 5), (65531, 5), (3, 5)], 65535, 65535))    # window down to index 3
+    out.append(line([(65535, 5), (65531, 5), (3, 5)], 65535, 65531))    # ... stops at index 4
+    out.append(line([(65535, 5), (1, 5), (3, 5)], 65535, 65536 + 65535))
+    out.append(line([(65534, 5), (0, 5), (2, 5)], 65534, 65534))
+    out.append(line([(65535, 9), (20000, 1), (65535, 1), (19996, 1), (19992, 1)], 20000, 8))  # shrinking order of writes
     return out
 
 
 def big_case(rng):
     """Long windows over a sparsely written array (unset slots are 0)."""
-    start = rng.choice([4999, 4998, rng.randint(3000, 4999)])
+    start = rng.choice([4999, 4998, 5000, 5001, 20000, 65535, 65534, rng.randint(3000, 4999), rng.randint(5000, 65535)])
     pal = rng.choice([[0, 1], [1, 2], [0, 5, 6]])
     n = rng.choice([3, 10, 40])
     idx = sorted(set([start] + [rng.randint(0, start) for _ in range(n)]))
     sets = [(i, rng.choice(pal)) for i in idx]
-    half = rng.choice([start, 65535, start - rng.randint(0, 50), rng.randint(0, start), 70536 + rng.randint(0, 4999)])
+    half = rng.choice([start, 65535, start - rng.randint(0, 50), rng.randint(0, start), 65536 + rng.randint(0, start)])
     return line(sets, start, max(0, half))
 
 
 def gen(rng, tier):
     quick = tier != "thorough"
     out = boundary_cases()                      # ~ 450
-    n_rand, n_plant, n_big = (600, 450, 12) if quick else (36000, 23400, 150)
+    n_rand, n_plant, n_big = (470, 330, 12) if quick else (36000, 23400, 150)
     for _ in range(n_rand):
         out.append(random_case(rng))
     for _ in range(n_plant):
@@ -207,13 +225,9 @@ def ref(case):
     sets, start, half = _parse(case)
     arr = {}
     for i, v in sets:
-        if i >= LEN:
-            return "PANIC"
         arr[i] = v
     if start < 4:
         return "0"
-    if start >= LEN:
-        return "PANIC"
     hm = half % 65536
     win = [j for j in range(0, start) if j % 2 == start % 2 and j + 4 <= start and j >= start - hm]
     occ = sum(1 for j in win if arr.get(j, 0) == arr.get(start, 0))
@@ -221,12 +235,12 @@ def ref(case):
 
 
 def nontrivial(case):
-    """The window is non-empty and nothing panics: the answer depends on the history contents."""
+    """The window is non-empty: the answer depends on the history contents."""
     p = _parse(case)
     if p is None:
         return False
     sets, start, half = p
-    if any(i >= LEN for i, _ in sets) or not (4 <= start < LEN):
+    if start < 4:
         return False
     return half % 65536 >= 4 and len(sets) > 0
 
